@@ -43,7 +43,7 @@ const (
 	kAlias   = "C15-alias-exec-transfer"
 	kGenesis = "C15-genesis-amount-unchecked"
 	kWdPanic = "C15-withdraw-credit-panic"
-	kDeposit = "C15-exec-deposit-overflow"
+	kSubAdd  = "C15-subledger-add-overflow"
 )
 
 func TestMain(m *testing.M) {
@@ -756,25 +756,23 @@ func (w *world) avoidKnown(t *rapid.T, o *op) {
 			o.Amt, o.Times = 0, 0 // refused cleanly (ErrAmount)
 		}
 	}
-	switch {
-	case o.Op == "GenesisInit" && lib.Known(kGenesis):
+	if o.Op == "GenesisInit" && lib.Known(kGenesis) && o.Amt < 0 {
 		// known finding: a negative grant is accepted
-		if o.Amt < 0 {
-			lib.ExcludedKnown(kGenesis)
-			o.Amt = rapid.Int64Range(1, opLimit-1).Draw(t, "amtOK")
-		}
-	case o.Op == "GenesisInitExec" && lib.Known(kGenesis):
+		lib.ExcludedKnown(kGenesis)
+		o.Amt = rapid.Int64Range(1, opLimit-1).Draw(t, "amtOK")
+	}
+	if o.Op == "GenesisInitExec" && lib.Known(kGenesis) && (!valid || o.A == o.X) {
 		// known finding: the executor address is credited before the deposit half refuses amount or address pair
-		if !valid || o.A == o.X {
-			lib.ExcludedKnown(kGenesis)
-			if !valid {
-				o.Amt = rapid.Int64Range(1, opLimit-1).Draw(t, "amtOK")
-			}
-			if o.A == o.X {
-				o.A = plain[0]
-			}
+		lib.ExcludedKnown(kGenesis)
+		if !valid {
+			o.Amt = rapid.Int64Range(1, opLimit-1).Draw(t, "amtOK")
+			valid, amt = true, big.NewInt(o.Amt)
 		}
-	case o.Op == "TransferWithdraw" && lib.Known(kWdPanic) && valid:
+		if o.A == o.X {
+			o.A = plain[0]
+		}
+	}
+	if o.Op == "TransferWithdraw" && lib.Known(kWdPanic) && valid {
 		// known finding: the sub-account is debited, then crediting `from` beyond the balance limit panics.
 		// The class: the (fit+1)-th repetition passes the balance checks but its credit exceeds the limit.
 		room := new(big.Int).Sub(bigBal, w.m.mainOf(o.A))
@@ -785,13 +783,25 @@ func (w *world) avoidKnown(t *rapid.T, o *op) {
 				shrink(fit, room)
 			}
 		}
-	case o.Op == "ExecDeposit" && lib.Known(kDeposit) && valid && o.A != o.X:
-		// known finding: sub-ledger additions have no overflow check; they can only wrap once the total held
-		// under an executor exceeds MaxInt64, which only an unbacked ExecDeposit can cause
-		room := new(big.Int).Sub(bigMaxI, w.held(o.X))
-		if fit := fitReps(room); fit < reps {
-			lib.ExcludedKnown(kDeposit)
-			shrink(fit, room)
+	}
+	if lib.Known(kSubAdd) && valid {
+		// known finding: additions to sub-account fields have no overflow check. The class: the credited field
+		// would pass MaxInt64 (only possible when the sub-ledger is not backed by the executor address's balance)
+		var credited *big.Int
+		switch o.Op {
+		case "ExecDeposit", "GenesisInitExec", "TransferToExec", "ExecActive":
+			credited = w.m.subOf(o.X, o.A).bal
+		case "ExecDepositFrozen", "ExecFrozen":
+			credited = w.m.subOf(o.X, o.A).frz
+		case "ExecTransfer", "ExecTransferFrozen":
+			credited = w.m.subOf(o.X, o.B).bal
+		}
+		if credited != nil {
+			room := new(big.Int).Sub(bigMaxI, credited)
+			if fit := fitReps(room); fit < reps {
+				lib.ExcludedKnown(kSubAdd)
+				shrink(fit, room)
+			}
 		}
 	}
 }
@@ -865,8 +875,9 @@ func TestKnown_WithdrawCreditPanic(t *testing.T) {
 		[]op{{Op: "GenesisInit", A: plain[0], Amt: balLimit}, {Op: "GenesisInitExec", A: plain[0], X: execOther, Amt: 10}, {Op: "TransferWithdraw", A: plain[0], X: execOther, Amt: 10}})
 }
 
-// ExecDeposit adds to the sub-account without an overflow check: repeated deposits wrap int64.
-func TestKnown_ExecDepositOverflow(t *testing.T) {
-	pinned(t, "TestKnown_ExecDepositOverflow", kDeposit, "ExecDeposit wraps the sub-account balance past MaxInt64",
+// Additions to sub-account fields (ExecDeposit and every other crediting path) have no overflow check: once the
+// sub-ledger is not backed by the executor address's balance, repeated credits wrap int64.
+func TestKnown_SubLedgerAddOverflow(t *testing.T) {
+	pinned(t, "TestKnown_SubLedgerAddOverflow", kSubAdd, "sub-account additions have no overflow check: ExecDeposit wraps the balance past MaxInt64",
 		[]op{{Op: "ExecDeposit", A: plain[0], X: execOther, Amt: opLimit - 1, Times: 93}})
 }
